@@ -447,6 +447,113 @@ def target_name(t):
     return t['name'] if 'name' in t else EXT[t.get('ext', 'other')]
 
 
+class FsPath:
+    """a path object that is neither `str` nor `pathlib.Path`: only the `os.PathLike` protocol"""
+
+    def __init__(self, p):
+        self._p = p
+
+    def __fspath__(self):
+        return self._p
+
+
+VIAS = ('str', 'Path', 'PathLike', 'bytes')
+
+
+def as_via(fname, via):
+    """the file name handed over the way the operation says"""
+    if via in (None, 'str'):
+        return fname
+    if via == 'Path':
+        import pathlib
+        return pathlib.Path(fname)
+    if via == 'PathLike':
+        return FsPath(fname)
+    if via == 'bytes':
+        return os.fsencode(fname)
+    raise ValueError(via)
+
+
+def _freeze(x):
+    """hashable, exact image of what h5py / pickle hand back"""
+    if isinstance(x, dict):
+        return ('dict', tuple(sorted((str(k), _freeze(v)) for k, v in x.items())))
+    if isinstance(x, (list, tuple)):
+        return (type(x).__name__, tuple(_freeze(v) for v in x))
+    if isinstance(x, np.ndarray):
+        if x.dtype.kind == 'O':
+            return ('ndO', x.shape, tuple(_freeze(v) for v in x.reshape(-1).tolist()))
+        return ('nd', str(x.dtype), x.shape, x.tobytes())
+    if isinstance(x, np.generic):
+        return ('np', str(x.dtype), x.tobytes())
+    if isinstance(x, float) and x != x:
+        return ('float', 'nan')
+    try:
+        hash(x)
+        return (type(x).__name__, x)
+    except TypeError:
+        return (type(x).__name__, repr(x))
+
+
+def snapshot(fname):
+    """the content of a file read *independently of rsatoolbox*: with h5py (every member, every
+    attribute) or with pickle (every pickle in the file); `None` = no such file"""
+    if not os.path.exists(fname):
+        return None
+    import h5py
+    import pickle
+    try:
+        is_h5 = h5py.is_hdf5(fname)
+    except Exception:  # noqa: BLE001
+        is_h5 = False
+    if is_h5:
+        links, attrs = {}, {}
+        try:
+            f = h5py.File(fname, 'r')
+        except OSError:
+            # a writer's File object not yet collected (write_dict_hdf5 never closes its file)
+            import gc
+            gc.collect()
+            f = h5py.File(fname, 'r')
+        with f:
+            def visit(name, o):
+                for k, v in o.attrs.items():
+                    attrs[name + '@' + k] = _freeze(v)
+                if isinstance(o, h5py.Group):
+                    links[name] = ('group',)
+                elif o.shape is None:
+                    links[name] = ('empty',)
+                else:
+                    links[name] = _freeze(np.asarray(o[()]))
+            for k, v in f.attrs.items():
+                attrs['@' + k] = _freeze(v)
+            f.visititems(visit)
+        return {'type': 'hdf5', 'links': links, 'attrs': attrs}
+    raw = open(fname, 'rb').read()
+    out = []
+    try:
+        with open(fname, 'rb') as f:
+            while f.tell() < len(raw):
+                out.append(_freeze(pickle.load(f)))
+        return {'type': 'pkl', 'pickles': out}
+    except Exception:  # noqa: BLE001
+        import hashlib
+        return {'type': 'raw', 'sha': hashlib.sha256(raw).hexdigest()}
+
+
+def snap_relation(a, b):
+    """how a file changed: 'same' | 'created' | 'merged' (an HDF5 file that still has every member
+    it had, unchanged, next to new ones / replaced attributes) | 'replaced'"""
+    if a == b:
+        return 'same'
+    if a is None:
+        return 'created'
+    if b is not None and a['type'] == 'hdf5' and b['type'] == 'hdf5' \
+            and all(k in b['links'] and b['links'][k] == v for k, v in a['links'].items()):
+        return 'merged'
+    return 'replaced'
+
+
 class Files:
     """targets of one session in a scratch directory"""
 
@@ -454,9 +561,12 @@ class Files:
         self.dir = tempfile.mkdtemp(prefix='c16_')
         self.handles = {}
 
-    def target(self, t):
+    def fname(self, t):
+        return os.path.join(self.dir, f"p{t['id']}{target_name(t)}") if t['path'] else None
+
+    def target(self, t, via=None):
         if t['path']:
-            return os.path.join(self.dir, f"p{t['id']}{target_name(t)}")
+            return as_via(self.fname(t), via)
         key = t['id']
         if key not in self.handles:
             if t.get('mem'):
@@ -531,9 +641,11 @@ def run_session(case, on_save=None, on_load=None):
         beh = [behaviour(k, o) for k, o in zip(kinds, objs)]
         out = []
         for op in case['ops']:
-            tgt = files.target(op['target'])
+            tgt = files.target(op['target'], op.get('via'))
+            fname = files.fname(op['target'])
             if op['do'] == 'save':
                 i = op['obj']
+                snap0 = snapshot(fname) if fname else None
                 try:
                     with warnings.catch_warnings():
                         warnings.simplefilter('ignore')
@@ -545,8 +657,32 @@ def run_session(case, on_save=None, on_load=None):
                     after = wire(attrs(kinds[i], objs[i]))
                 except Exception as exc:  # noqa: BLE001
                     after = 'exc ' + type(exc).__name__
-                out.append({'err': err, 'pure': after == before[i]})
+                res = {'err': err, 'pure': after == before[i]}
+                if fname:
+                    # the file before / after, read without rsatoolbox
+                    res['existed'] = snap0 is not None
+                    snap1 = snapshot(fname)
+                    res['file'] = snap_relation(snap0, snap1)
+                    if snap0 is not None and op.get('overwrite') and err is None:
+                        # "the file afterwards holds exactly the new object": the same object saved
+                        # to a fresh path (plain str) gives a file with the same content
+                        ref = os.path.join(files.dir, 'ref_' + os.path.basename(fname))
+                        try:
+                            with warnings.catch_warnings():
+                                warnings.simplefilter('ignore')
+                                real_save(kinds[i], objs[i], ref, op.get('ft'), None)
+                            res['exact'] = snapshot(ref) == snap1
+                        except Exception:  # noqa: BLE001
+                            res['exact'] = None
+                        finally:
+                            if os.path.exists(ref):
+                                try:
+                                    os.remove(ref)
+                                except OSError:
+                                    pass
+                out.append(res)
             else:
+                snap0 = snapshot(fname) if fname else None
                 try:
                     with warnings.catch_warnings():
                         warnings.simplefilter('ignore')
@@ -554,6 +690,8 @@ def run_session(case, on_save=None, on_load=None):
                     res = {'loaded': lo}
                 except Exception as exc:  # noqa: BLE001
                     res = {'err': type(exc).__name__ + ': ' + str(exc)[:60]}
+                if fname:       # reading never creates or changes a file
+                    res['file'] = snap_relation(snap0, snapshot(fname))
                 out.append(res)
         return objs, kinds, before, beh, out
     finally:
